@@ -42,6 +42,13 @@ def implPermLine (j : Json) : String :=
 def keyLine (k : ServerKey) (names : List String) : String :=
   s!"{k.p.num}|{k.v.num}|{b01 k.tls}|{b01 k.certs}|" ++ "\n".intercalate (sortStrings names)
 
+/-- the branch of the model that rejected the input (evidence class label) -/
+def errName : LibErr → String
+  | .suiteNoName => "suite-no-name" | .suiteNoTests => "suite-no-tests" | .suiteDuplicate _ => "suite-duplicate"
+  | .misconfigured _ => "misconfigured" | .testNoName _ => "test-no-name" | .testNoStreamType _ => "test-no-stream-type"
+  | .methodWithoutService _ => "method-without-service" | .serviceWithoutMethod _ => "service-without-method"
+  | .duplicateName _ => "duplicate-name" | .noTestCases => "no-test-cases"
+
 def handle : Handler := fun op inp impl =>
   if !(isNull (field impl "panic")) then
     { agree := false, holds := false, why := "panic: " ++ str (field impl "panic") } else
@@ -101,7 +108,9 @@ def handle : Handler := fun op inp impl =>
         | .error e => Json.mkObj [("err", toString (repr e))]
         | .ok lib => Json.mkObj [("perms", toJson lib.length)],
       why := why,
-      cls := if !wf then "ill-formed" else if spec.isEmpty then "empty" else "ok" }
+      cls := match m with
+        | .error e => (if !wf then "ill-formed:" else if spec.isEmpty then "empty:" else "UNEXPECTED-REJECT:") ++ errName e
+        | .ok _ => if !wf then "UNEXPECTED-ACCEPT" else "ok" }
   | "parse" =>
     let suites := (arr (field inp "suites")).map suiteOf
     let implErr := str (field impl "err")
